@@ -391,6 +391,11 @@ fn minimise(mut plans: Vec<Plan>, kind: &str, known: &[String]) -> (Vec<Plan>, u
                         x.nested = None;
                         cands.push(x);
                     }
+                    if cur.mode != 0 {
+                        let mut x = cur.clone();
+                        x.mode = 0;
+                        cands.push(x);
+                    }
                     if let Some((k, f)) = cur.fault {
                         if k > 0 {
                             let mut x = cur.clone();
